@@ -196,7 +196,8 @@ HARNESS = {"c05.roundtrip": roundtrip}
 
 def jobs(tier):
     js = []
-    o = {"index_concretize_limit": 8, "witnesses": 1}
+    o = {"witnesses": 1}
+    oc = {"index_concretize_limit": 8, "witnesses": 1}
     for est, fpr in [(1, .5), (3, .2), (5, .3)] + ([(10, .05)] if tier == "thorough" else []):
         for ch in CHANNELS:
             js.append({"h": "c05.roundtrip", "cfg": {"kind": "bloom", "est": est, "fpr": fpr, "channel": ch}, "opts": dict(o, cost=est)})
@@ -223,9 +224,9 @@ def jobs(tier):
                     if ch != "bytes" and sum(occ) not in (0, cap * bsz):
                         continue
                     js.append({"h": "c05.roundtrip", "cfg": {"kind": "ccuckoo" if counting else "cuckoo", "cap": cap, "bsz": bsz, "swaps": 3,
-                                                              "auto": True, "occ": list(occ), "counting": counting, "channel": ch}, "opts": dict(o, cost=cap * bsz)})
+                                                              "auto": True, "occ": list(occ), "counting": counting, "channel": ch}, "opts": dict(oc, cost=cap * bsz)})
         # a stored fingerprint equal to 0 (reachable: a key whose hash has zero low bits)
         for occ in ([1, 0], [1, 1]):
             js.append({"h": "c05.roundtrip", "cfg": {"kind": "ccuckoo" if counting else "cuckoo", "cap": 2, "bsz": 1, "swaps": 3, "auto": True,
-                                                      "occ": occ, "counting": counting, "channel": "bytes", "zero": True}, "opts": dict(o)})
+                                                      "occ": occ, "counting": counting, "channel": "bytes", "zero": True}, "opts": dict(oc)})
     return js
